@@ -24,6 +24,8 @@ class _U:
         self.wbs = list(STATE["wbs"])
         self.n, self.w = len(self.tasks), len(self.wbs)
         self.handles = []
+        self.phandles = []
+        self.shandles = []
         self.ids = [0]
 
     def tidx(self):
